@@ -9,6 +9,7 @@ from __future__ import annotations
 
 from .. import planlib, simclock, world
 from ..catalogue import build, mk_candles, sample_spec, spec_label
+from ..subjects import Neighbours, sample_neighbours
 from ..core import Discard, LibError, Violation, filled_size, run_property
 from ..relational import any_reading, batch_twin, compare_candles
 from ..util import snap_candles, sub_rng, tf_seconds
@@ -68,9 +69,11 @@ def plan(seed, subbatch):
             out.append({"op": "check"})
     if out[-1]["op"] != "check":
         out.append({"op": "check"})
+    offset = cfg.choice((None, None, None, None, 0, 60, -210))
+    neighbours = sample_neighbours(sub_rng(seed, "neighbours"), spec["common"].get("timeframe"), offset)
     return {"format": 1, "property": ID, "seed": seed, "subbatch": subbatch,
-            "config": {"process_tz": env[0] if env else None, "spec": spec, "base_s": base_s,
-                       "utc_offset_min": cfg.choice((None, None, None, None, 0, 60, -210))},
+            "config": {"neighbours": neighbours, "process_tz": env[0] if env else None, "spec": spec, "base_s": base_s,
+                       "utc_offset_min": offset},
             "ops": out, "fired": dict(fired)}
 
 
@@ -115,6 +118,9 @@ def _execute(trace):
                 if kind == "new":
                     rows = op.get("preload") or []
                     delivered.extend(rows)
+                    neigh = Neighbours(trace["config"].get("neighbours"), rows)     # built BEFORE the subject
+                    if neigh.items:
+                        run.stats["reach:neighbour_objects_in_process"] += len(neigh.items)
                     subject = run.call(filled_size(rows, tfs), build, spec, rows)
                     if op.get("calculate"):
                         run.call(filled_size(rows, tfs) * 2, subject.calculate)
@@ -128,6 +134,7 @@ def _execute(trace):
                         continue
                     n_appends += 1 if rows else 0
                     delivered.extend(rows)
+                    neigh.feed(rows)
                     payload = mk_candles(rows)
                     if len(rows) == 1 and op.get("bare"):
                         payload = payload[0]   # a single candle handed over as a bare Candle object
